@@ -293,7 +293,9 @@ def install_formatter(S: Seams, fmt):
             if act == "fmt_raise" or k in always or fmt.get("always"):
                 raise RuntimeError("injected: black failed")
             if act == "fmt_black_truncated":
-                return real_format_str(src, mode=mode)[: max(1, len(src) // 2)]
+                # the formatter hands back text that is broken beyond doubt (cut off, with brackets left open): a cut that happens to parse
+                # (`True` -> `Tr`) is indistinguishable from a formatter's legitimate answer and would be an unfair fault
+                return real_format_str(src, mode=mode)[: max(1, len(src) // 2)] + " ((["
             return real_format_str(src, mode=mode)
 
         black.format_str = format_str
